@@ -78,8 +78,8 @@ class StairsSlicer:
     def hist(self, *args, **kwargs):
         self._ensure_slices()
         zero = (
-            self._stairs._data.index[0] - self._stairs._data.index[0]
-        )  # hack to get 0 or pd.Timedelta(0)
+            self._interval_index.left[0] - self._interval_index.left[0]
+        )  # hack to get 0 or pd.Timedelta(0); taken from the slices: a step-free function has no step points
         return self._slices.apply(sc.Stairs.hist, *args, **kwargs).fillna(zero)
 
     @Appender(docstrings.resample_docstring, join="\n", indents=1)
